@@ -85,7 +85,7 @@ def streams(rng, tier):
     out = []
     # ---- binop
     cs = []
-    reps = 4 if thorough else 1
+    reps = 8 if thorough else 1
     for fn in OPS:
         for form in FORMS:
             for ta, tb in PAIRS:
@@ -130,7 +130,7 @@ def streams(rng, tier):
     # ---- table
     cs = []
     tcols = ["int", "float", "bool", "Fr", "complex", "str", "date", "td", "Dec"]
-    for _ in range(8000 if thorough else 1500):
+    for _ in range(15000 if thorough else 1500):
         fn = rng.choice(OPS)
         ncol = rng.choice([1, 2, 2, 3])
         nrow = rng.choice(LENGTHS)
